@@ -302,6 +302,10 @@ def run(ctx):
         r01_5(ctx, fx)
         r01_6(ctx, fx)
     if ctx.tier == "thorough":
+        # "the identity key whose hash is P": with RSA identities (feature rsa) the hashed bytes embed the DER key verbatim, so the
+        # one-spelling-per-key obligation of C18 R18.6 is a necessary condition of this property too
+        import C18
+        C18.r18_6(ctx, ctx.facts("all"))
         import witness
         res, tail = witness.run()
         r = res.get("NoiseModuleIsPrivate", {})
